@@ -20,6 +20,11 @@ type Options struct {
 	IndentSize         int
 	AlignAmounts       bool
 	MinAlignmentColumn int
+	// ErrorLines holds the (zero-based) lines on which the parser reported a
+	// syntax error. Posting lines are rebuilt from the syntax tree, which does
+	// not contain what the parser failed to understand; rewriting such a line
+	// would delete that text, so these lines are left untouched.
+	ErrorLines map[int]bool
 }
 
 func DefaultOptions() Options {
@@ -158,8 +163,11 @@ func formatTransactionWithOpts(tx *ast.Transaction, mapper *lsputil.PositionMapp
 
 	for i := range tx.Postings {
 		posting := &tx.Postings[i]
-		formatted := formatPostingWithOpts(posting, alignment, commodityFormats, indent, opts.AlignAmounts)
 		line := posting.Range.Start.Line - 1
+		if opts.ErrorLines[line] {
+			continue
+		}
+		formatted := formatPostingWithOpts(posting, alignment, commodityFormats, indent, opts.AlignAmounts)
 
 		edit := protocol.TextEdit{
 			Range: protocol.Range{
